@@ -93,7 +93,10 @@ async def soak(loop, acc, V, seed, rounds=12, rate=0.08, chunking="whole", windo
                         f"v{V}: ControllerApplication.connect()/start_network() over a clean serial line ended with {e!r}; "
                         f"last requests: {[(r[1], r[5]) for r in ws.ncp.requests[-6:]]}", None))
             return out
-        ezsp, proto = app._ezsp, ws.protocol
+        import bellows.ezsp as ezsp_mod
+
+        ezsp = next((v for v in vars(app).values() if isinstance(v, ezsp_mod.EZSP)), None) or app._ezsp
+        proto = ws.protocol
         own = int(app.state.node_info.nwk)
         # ---- taps at the boundaries (instance attributes; the code under test looks them up per call)
         orig_send = proto.send_data
